@@ -46,7 +46,35 @@ pub enum Action {
     /// drop this and every later datagram, both directions (the peer / the path is gone)
     BlackholeFrom,
     /// the server forgets every path secret immediately before this datagram is handled
+    /// (tcp family: immediately before socket call i is answered)
     Forget,
+    // ---- tcp family, "calls" mode: the index is the socket-call index (see tcp.rs)
+    /// the call transfers one byte only (short read / partial write)
+    One,
+    /// the call transfers half of what it would have transferred
+    Half,
+    /// the call transfers all but the last byte
+    AllBut1,
+    /// the call answers `Pending` once (readiness arrives later); the re-poll is the next call
+    Pend,
+    /// the connection is severed immediately before this call is answered; queued bytes stay
+    /// readable, then EOF (the peer's kernel sent FIN: the peer process died); writes fail
+    SeverEof,
+    /// as `SeverEof` but with RST: both queues are purged, reads and writes fail with ECONNRESET
+    SeverReset,
+    /// the connection goes silent immediately before this call: nothing is delivered any more and no
+    /// error is ever reported (a TCP peer that vanished without RST and without keepalive). Probe only.
+    SeverQuiet,
+    // ---- tcp family, "bytes" mode: the index is a byte offset of the wire stream of direction `d`
+    //      (0 = client->server, 1 = server->client)
+    /// no read crosses this offset (a TCP segment boundary here)
+    Split(u8),
+    /// the reader of `d` gets exactly this many bytes, then EOF (connection closed mid-stream)
+    CutEof(u8),
+    /// the reader of `d` gets exactly this many bytes, then ECONNRESET
+    CutReset(u8),
+    /// the reader of `d` gets exactly this many bytes, then nothing, for ever. Probe only.
+    CutQuiet(u8),
 }
 
 impl Action {
@@ -58,6 +86,17 @@ impl Action {
             Action::Delay(m) => format!("L{}", m),
             Action::BlackholeFrom => "B".into(),
             Action::Forget => "F".into(),
+            Action::One => "O".into(),
+            Action::Half => "H".into(),
+            Action::AllBut1 => "M".into(),
+            Action::Pend => "P".into(),
+            Action::SeverEof => "E".into(),
+            Action::SeverReset => "R".into(),
+            Action::SeverQuiet => "Q".into(),
+            Action::Split(d) => format!("S{}", dir_code(*d)),
+            Action::CutEof(d) => format!("E{}", dir_code(*d)),
+            Action::CutReset(d) => format!("R{}", dir_code(*d)),
+            Action::CutQuiet(d) => format!("Q{}", dir_code(*d)),
         }
     }
     pub fn parse(s: &str) -> Option<Action> {
@@ -69,12 +108,46 @@ impl Action {
             "L" => Action::Delay(t.parse().ok()?),
             "B" => Action::BlackholeFrom,
             "F" => Action::Forget,
+            "O" => Action::One,
+            "H" => Action::Half,
+            "M" => Action::AllBut1,
+            "P" => Action::Pend,
+            "E" if t.is_empty() => Action::SeverEof,
+            "R" if t.is_empty() => Action::SeverReset,
+            "Q" if t.is_empty() => Action::SeverQuiet,
+            "S" => Action::Split(parse_dir(t)?),
+            "E" => Action::CutEof(parse_dir(t)?),
+            "R" => Action::CutReset(parse_dir(t)?),
+            "Q" => Action::CutQuiet(parse_dir(t)?),
             _ => return None,
         })
     }
     /// permanent faults: no completion can be demanded afterwards
     pub fn is_permanent(&self) -> bool {
-        matches!(self, Action::BlackholeFrom | Action::Forget)
+        matches!(self, Action::BlackholeFrom | Action::Forget | Action::SeverEof | Action::SeverReset | Action::SeverQuiet | Action::CutEof(_) | Action::CutReset(_) | Action::CutQuiet(_))
+    }
+    /// tcp "bytes" mode: the direction the byte offset refers to
+    pub fn dir(&self) -> Option<u8> {
+        match self {
+            Action::Split(d) | Action::CutEof(d) | Action::CutReset(d) | Action::CutQuiet(d) => Some(*d),
+            _ => None,
+        }
+    }
+}
+
+fn dir_code(d: u8) -> &'static str {
+    if d == 0 {
+        "c"
+    } else {
+        "s"
+    }
+}
+
+fn parse_dir(t: &str) -> Option<u8> {
+    match t {
+        "c" => Some(0),
+        "s" => Some(1),
+        _ => None,
     }
 }
 
@@ -198,13 +271,14 @@ impl Allocator for ChoiceAlloc {
                         st.max_len = st.max_len.max(len);
                         st.dgrams.push(Dgram { idx, t: now, src: packet.source(), dst: packet.destination(), len, action: label });
                         match action {
-                            Action::Deliver | Action::Forget => pushes.push((base, packet)),
                             Action::Drop | Action::BlackholeFrom => {}
                             Action::Dup(extra) => {
                                 pushes.push((base, packet.clone()));
                                 pushes.push((base + Duration::from_micros(extra), packet));
                             }
                             Action::Delay(m) => pushes.push((base * m, packet)),
+                            // Deliver, Forget; the tcp-family actions never occur in a UDP schedule
+                            _ => pushes.push((base, packet)),
                         }
                     }
                     for p in pushes {
